@@ -296,9 +296,63 @@ def check_many(pairs_, le, use_diff):
     return v
 
 
+def adjacent_chars():
+    """BMP characters one of whose UTF-16 code-unit bytes is a byte the
+    newline sequences are made of (0x0A, 0x0D, 0x00)."""
+    out = []
+    for cp in range(0x100, 0x10000):
+        if 0xD800 <= cp <= 0xDFFF:
+            continue
+        if (cp >> 8) in (0x0A, 0x0D, 0x00) or (cp & 0xFF) in (0x0A, 0x0D,
+                                                              0x00):
+            out.append(cp)
+    return out + [0x10000, 0x1F600, 0x10A0D, 0x100000]
+
+
+WIDE = ['utf-16', 'utf-16-le', 'utf-16-be', 'utf-32', 'utf-32-le',
+        'utf-32-be']
+
+
+def check_adjacent(sp, cname, cp):
+    from mc.alphabets import misaligned
+    ch = chr(cp)
+    v = []
+    for kind, nlt in (('unix', '\n'), ('dos', '\r\n')):
+        text = 'a' + ch + nlt + ch + 'b' + nlt + ch + nlt
+        data = spec.enc_nobom(text, cname)
+        if misaligned(data, cname):
+            continue
+        want = spec.nl(kind, cname)
+        try:
+            g = tuple(guess_line_endings(data, encoding=sp))
+        except Exception as e:
+            return [('guess-raised:%s' % type(e).__name__, repr(e))]
+        if g != (kind, want):
+            v.append(('guess-line-endings:%s:adjacent-bytes'
+                      % family(cname),
+                      'U+%04X before the newline: guess_line_endings(%r, '
+                      '%r) = %r, expected %r' % (cp, data[:24], sp, g,
+                                                 (kind, want))))
+            continue
+        calls = [['change', None], ['file', None], ['meta', {'k': 'v'}, None],
+                 ['diff', data, None, sp, None]]
+        wantb, _ = spec.serialize(calls, 'utf-8')
+        try:
+            w, st, offs = run_writer(calls, 'utf-8')
+            if st.getvalue() != wantb:
+                v.append(('writer-bytes:%s:adjacent-bytes' % family(cname),
+                          'U+%04X: diff written as %r, expected %r'
+                          % (cp, st.getvalue()[-60:], wantb[-60:])))
+        except Exception as e:
+            v.append(('writer-raised:%s:%s:adjacent-bytes'
+                      % (type(e).__name__, site_of(e)), repr(e)))
+    return v
+
+
 def plan(tier):
     cat = catalogue()
     units = sorted(cat)
+    units += [('adjacent', c) for c in WIDE if c in cat]
     units += [('many', i) for i in range(len(many_files()))]
     nsp = sum(len(spellings(c, l)) for c, l in cat.items())
     return {
@@ -329,6 +383,27 @@ def plan(tier):
 
 def run_unit(cname, tier):
     acc = Acc()
+    if isinstance(cname, tuple) and cname[0] == 'adjacent':
+        c = cname[1]
+        cat = catalogue()
+        sps = spellings(c, cat[c])
+        pick = [c] + [x for x in sps if x != c][:1] + \
+            [x for x in sps if x != c][-1:]
+        for sp in dict.fromkeys(pick):
+            for cp in adjacent_chars():
+                viols = check_adjacent(sp, c, cp)
+                acc.evals += 1
+                acc.states += 1
+                acc.transitions += 2
+                acc.validated += 1
+                acc.nontrivial += 1
+                for key, msg in viols:
+                    acc.violation(key, msg, {'kind': 'adjacent', 'sp': sp,
+                                             'cname': c, 'cp': cp})
+                acc.outcome('ok' if not viols else 'violation')
+        acc.sample({'adjacent_byte_characters': len(adjacent_chars()),
+                    'codec': c, 'spellings': list(dict.fromkeys(pick))}, 1)
+        return acc
     if isinstance(cname, tuple) and cname[0] == 'many':
         pairs_ = many_files()[cname[1]]
         for le in ('unix', 'dos'):
@@ -409,6 +484,9 @@ def replay(payload):
         viols = check_roundtrip(payload['sp'], payload['cname'],
                                 payload['le'], payload['indent'],
                                 payload['text'], payload['container'])
+    elif payload.get('kind') == 'adjacent':
+        viols = check_adjacent(payload['sp'], payload['cname'],
+                               payload['cp'])
     elif payload.get('kind') == 'many':
         viols = check_many(many_files()[payload['index']], payload['le'],
                            payload['diff'])
